@@ -205,7 +205,7 @@ impl Report {
             "subruns": self.subruns,
             "exhaustive": false,
             "exhaustive_subruns": self.stats.exhaustive_parts,
-            "known_findings_reported": self.known,
+            "known_findings_reported": crate::known::open_for(&self.property).iter().map(|f| json!({"signature": f.signature, "what": f.text, "excluded_in_this_run": self.stats.labels.get(&format!("known-finding-hit:{}", f.signature)).copied().unwrap_or(0)})).collect::<Vec<_>>(),
             "inconclusive": self.inconclusive,
             "violations": self.violations.iter().map(|v| json!({"kind": v.kind, "message": v.message, "replay": v.replay})).collect::<Vec<_>>(),
         });
@@ -235,6 +235,10 @@ impl Report {
         }
         for k in &self.known {
             println!("KNOWN-FINDING: property={} {}", self.property, k);
+        }
+        for f in crate::known::open_for(&self.property) {
+            let hits = self.stats.labels.get(&format!("known-finding-hit:{}", f.signature)).copied().unwrap_or(0);
+            println!("KNOWN-FINDING: property={} {} [signature {}; met and excluded {} times in this run]", self.property, f.text, f.signature, hits);
         }
         for v in &self.violations {
             println!("--- {} [{}]: {}", v.property, v.kind, v.message);
@@ -609,7 +613,7 @@ where
             let (st, v, i) = enumerate_shard(property, kind, &cases, w, wn, &f);
             emit_and_exit(st, v, i)
         }
-        None if n == 1 || cases.len() < 8 => {
+        None if n == 1 || cases.len() < 2 => {
             let start = Instant::now();
             let (st, v, i) = enumerate_shard(property, kind, &cases, 0, 1, &f);
             SubRun { stats: st, violations: v.into_iter().collect(), inconclusive: i, exhaustive: false, wall_s: start.elapsed().as_secs_f64() }
